@@ -287,7 +287,7 @@ def rule_r3(repo):
     js = [render_json(repo, *s) for s in subsets]
     zero = build_tree(2)
     cases = [('@[0]/001001', [0]), ('@[1]/001001', [1]), ('@[-1]/001001', [2]), ('@[::2]/340011/004001', [0, 2]), ('@[1:]/102000/012101[0]', [1, 2]),
-             ('/102000/007004', [0, 1, 2]), ('@[2]/012101[-1]', [2]), ('@[5]/001001', None)]
+             ('/102000/007004', [0, 1, 2]), ('@[2]/012101[-1]', [2]), ('@[5]/001001', None), ('@[::-1]/001001', [2, 1, 0]), ('@[2:0:-1]/340011/004001', [2, 1])]
     for compressed in (False, True):
         msg = make_message(subsets, compressed)
         for path, want_idx in cases:
@@ -308,7 +308,7 @@ def rule_r3(repo):
                 want = dict((i, ref_query(render_json(repo, subsets[0][0], subsets[i][1], subsets[i][2]), comps)) for i in want_idx)
             else:
                 want = dict((i, ref_query(js[i], comps)) for i in want_idx)
-            if got != want:
+            if got != want or list(got) != list(want_idx):
                 rr.fail('DataQuerent.query:subset', fi.where, 'query %r on %s data returns %r; expected %r' % (path, 'compressed' if compressed else 'uncompressed', got, want),
                         witness={'path': path, 'compressed': compressed})
     # zero-count delayed replication: querying a child gives an empty list
